@@ -498,7 +498,7 @@ def one_case(ctx, case):
 
 def run_shard(ctx):
     P = plan(ctx)
-    forces = ["scan", "vmap", "indicator", "cond", "vdist", "call", None, "detcall"]
+    forces = ["scan", "vmap", "indicator", "cond", "vdist", "call", "condm", "detcall"]
     drive(ctx, ir_cases(forces[ctx.shard % len(forces)]), P["n_ir"], lambda c: one_case(ctx, c), "ir")
     nk = modelir.NEST_KINDS  # combinators applied directly to combinators
     drive(ctx, ir_cases(nk[ctx.shard % len(nk)]), P.get("n_nest", max(1, P["n_ir"] // 3)), lambda c: one_case(ctx, c), "nest")
